@@ -344,3 +344,42 @@ def pvt_drain_rule(rep, us):
                                          "nobody reads the virtual thread's queue at shutdown: a message accepted for it (send = 0) while the worker was busy never runs "
                                          "and its memory leaks; tp_destroy returns 0")
     return 1
+
+
+def fd_packing_rule(rep):
+    """the descriptor is kept in tpdata so that an all-zero tpdata means "none": the getter applied to 0 gives the 'none'
+    value the code compares with (-1), and storing 'none' gives back 0 - whatever packing is used"""
+    pr = tp.probe(tp.TP_C, {"GET0": "(unsigned long long)(long long)TPDATA_TFD_GET(0ull)"}, "probe:tfd-none")
+    txt = "static unsigned long long lcb_x;"
+    v = pr.get("GET0")
+    ok = v is not None and (v == (1 << 64) - 1)
+    (rep.proved if ok else rep.violated)("R-FDZERO", "", "packing-none-is-minus-one", "TPDATA_TFD_GET(0) is -1: an empty record has no descriptor, descriptor 0 is representable",
+                                         "" if ok else "TPDATA_TFD_GET(0) = %s: the code compares with -1, so an empty record would name a descriptor" % v,
+                                         file=tp.TP_C, unit="probe:tfd-none")
+    return 1
+
+
+def last_access_rule(rep, u, states):
+    """tp_shutdown_wait()/tp_destroy() take STOP for "this thread will not touch the pool again": in the thread procedure the
+    store of STOP is the last access through the thread object"""
+    fp = tp.need(u, "tp_thread_proc")
+    obj = None
+    for pos, root, x, ps in fp.nodes():
+        if x.get("k") == "decl":
+            for v in x["vars"]:
+                if "init" in v and core.base_ref(v["init"]) is not None and core.base_ref(v["init"])["n"] == fp.params[0]["n"]:
+                    obj = v["n"]
+    obj = obj or fp.params[0]["n"]
+    n = 0
+    for pos, root, x, ps in fp.nodes():
+        if x.get("k") == "bin" and x["op"] == "=" and core.strip_casts(x["x"]).get("k") == "mem" and core.strip_casts(x["x"])["f"] == "state" and \
+                const_val(x["y"]) == states["STOP"]:
+            # the final one: a return follows without a branch
+            later = [y for p2, r2, y, _ in fp.nodes() if y.get("k") == "ref" and y["n"] == obj and fp.pos_dominates(pos, p2) and p2 != pos]
+            if not any(fp.pos_dominates(pos, rp) for rp, _r in fp.returns()):
+                continue
+            n += 1
+            # failure exits before the loop (state rolled back, then return) have no later access either
+            (rep.proved if not later else rep.violated)("R-STATE", fp, "stop-is-last-access#%d" % n, "tp_thread_proc: nothing is accessed through the thread object after STOP is stored",
+                                                        "" if not later else "the object is used again at line %s after STOP: a waiter that saw STOP may already have freed the pool" % later[0].get("ln"), x.get("ln"))
+    return n
